@@ -139,7 +139,7 @@ DSV = "cardillo/solver/dual_stormer_verlet.py"
 SEARCHES = ("np.where", "np.flatnonzero", "np.nonzero", "np.argwhere", "np.searchsorted")
 
 
-def nf_link(ctx):
+def nf_link(ctx, rule="C18.R5"):
     from ..cfg import CFG
     from ..dataflow import ReachingDefs
     rep = ctx.rep
@@ -170,7 +170,7 @@ def nf_link(ctx):
         iN, iF, _ = ap.ast.value.args[0].elts
         # ---- normal link
         if isinstance(iN, (ast.List, ast.Tuple)) and not iN.elts:
-            rep.ok("C18.R5", C, f"{norm_src(ap.ast)[:70]}: no normal force dependence (constant reservoir)", trivial=True)
+            rep.ok(rule, C, f"{norm_src(ap.ast)[:70]}: no normal force dependence (constant reservoir)", trivial=True)
         elif isinstance(iN, ast.Name):
             ds, vals = single_def(ap, iN.id)
             okk = False
@@ -194,12 +194,12 @@ def nf_link(ctx):
                            "(a running counter only counts contacts that own a friction law, but the local percussion vector is ordered like the active set, "
                            "which also holds frictionless contacts)")
             if okk:
-                rep.ok("C18.R5", C, f"{iN.id} = {norm_src(vals[0])}: position of the law's global normal index in the active set")
+                rep.ok(rule, C, f"{iN.id} = {norm_src(vals[0])}: position of the law's global normal index in the active set")
             else:
-                rep.bad("C18.R5", C, ds[0].ast if ds else ap.ast, f"the local normal index `{iN.id}` paired with a friction law is wrong in general: {why}; "
+                rep.bad(rule, C, ds[0].ast if ds else ap.ast, f"the local normal index `{iN.id}` paired with a friction law is wrong in general: {why}; "
                         "the friction reservoir would be scaled by another contact's normal percussion", f"{rel}:{(ds[0] if ds else ap).lineno}")
         else:
-            rep.bad("C18.R5", C, ap.ast, "local normal index of a friction law is neither empty nor a named search result", f"{rel}:{ap.lineno}")
+            rep.bad(rule, C, ap.ast, "local normal index of a friction law is neither empty nor a named search result", f"{rel}:{ap.lineno}")
         # ---- friction indices: arange(n) + counter, counter advanced with the extension of I_F
         okf = False
         if isinstance(iF, ast.Name):
@@ -224,9 +224,9 @@ def nf_link(ctx):
                     good = good and len(nv) == 1 and isinstance(nv[0], ast.Call) and dotted(nv[0].func) == "len"
                     okf = good
         if okf:
-            rep.ok("C18.R5", C, f"{iF.id} = {norm_src(vals[0])}: counter advanced by {n_name} exactly where I_F is extended")
+            rep.ok(rule, C, f"{iF.id} = {norm_src(vals[0])}: counter advanced by {n_name} exactly where I_F is extended")
         else:
-            rep.bad("C18.R5", C, ap.ast, "the local friction indices are not `np.arange(n_F) + counter` with the counter advanced by n_F in exactly the blocks that extend I_F: "
+            rep.bad(rule, C, ap.ast, "the local friction indices are not `np.arange(n_F) + counter` with the counter advanced by n_F in exactly the blocks that extend I_F: "
                     "friction laws would read the slip velocity / percussion of another law", f"{rel}:{ap.lineno}")
 
 
